@@ -1,7 +1,7 @@
 SPECIFICATION TraceSpec
 CONSTANTS
   t1 = t1  t2 = t2  t3 = t3  t4 = t4  t5 = t5
-  Threads = {t1, t2, t3, t4}
+  Threads = {t1, t2}
   NCh <- MCNCh3
   Avail <- MCAvail3
   Dev = {}
